@@ -25,15 +25,20 @@ def fixedBufLen (d e : Nat) : Nat := (if d ≥ e then d else e) + 8
 def fixedPrepare (buf : Bytes) (d e : Nat) (memBase memLen : Nat) : Bytes :=
   writeU64 (writeU64 buf d memBase) e (memBase + memLen)
 
+/-- the packet region as the engines address it through `ldabs`/`ldind`: an empty packet has the null base (the
+    interpreter's `mem_base`, the null `mem_ptr` handed to compiled code) -/
+def pktRegion (mem : Region) : Region := if mem.bytes.size = 0 then ⟨0, #[]⟩ else mem
+
 /-- the (packet, metadata) pair each VM kind passes to `interpreter::execute_program`;
     `fixedBase`/`fixedBuf` are the address and current contents of the fixed-metadata VM's internal buffer;
-    an empty Rust slice has the dangling address 1 -/
+    an empty Rust slice has the dangling address 1 (that is what the fixed-metadata VM's interpreter path writes
+    into its slots for an empty packet) -/
 def memOf (k : Kind) (mem mbuff : Region) (fixedBase : Nat) (fixedBuf : Bytes) (d e : Nat) (stack : Region) (extra : List Region) : Memory :=
   match k with
-  | .mbuff => { mbuff := mbuff, mem := mem, stack, extra }
-  | .raw => { mbuff := ⟨1, #[]⟩, mem := mem, stack, extra }
-  | .noData => { mbuff := ⟨1, #[]⟩, mem := ⟨1, #[]⟩, stack, extra }
-  | .fixed => { mbuff := ⟨fixedBase, fixedPrepare fixedBuf d e mem.base mem.bytes.size⟩, mem := mem, stack, extra }
+  | .mbuff => { mbuff := mbuff, mem := pktRegion mem, stack, extra }
+  | .raw => { mbuff := ⟨1, #[]⟩, mem := pktRegion mem, stack, extra }
+  | .noData => { mbuff := ⟨1, #[]⟩, mem := ⟨0, #[]⟩, stack, extra }
+  | .fixed => { mbuff := ⟨fixedBase, fixedPrepare fixedBuf d e mem.base mem.bytes.size⟩, mem := pktRegion mem, stack, extra }
 
 -- the API state machine ---------------------------------------------------------------------------------
 
